@@ -480,4 +480,58 @@ theorem find_claims_ns (wf : fs.WF) (hns : o.ns = true) {roots : List Path} {B :
         have hcr := crawl_candidate fs o hbd hx hxi (by simpa using hinn.1.1) hinn.2 hgfile.1 hgfile.2
         exact ⟨g, R, hfm, hR, hgfile.2, hcr, hgfile.1⟩
 
+/-- **module → path → module.**  Whatever *file* `find_module` returns for an importable module `dc.x` under search
+    roots that are genuine bases is named `dc.x` again by `crawl_up` — provided, for a namespace near miss, that the
+    top-level directory is a regular package or the root an explicit base (`htop`; otherwise the crawl names the file
+    relative to a deeper directory: the by-design difference between `mypy -p` and `mypy FILES`). -/
+theorem find_then_crawl (wf : fs.WF) {roots : List Path} {dc : List Name} {x : Name} {g : Path}
+    (hdc : ∀ c ∈ dc, isIdent c = true) (hx : isIdent x = true) (hxi : x ≠ sInit)
+    (hgood : ∀ R ∈ roots, crawlUpDir fs o R = .some [] R)
+    (hinner : ∀ R ∈ roots, noBaseBelow o R (x :: dc.reverse) = true ∧ o.isBase (R ++ dc ++ [x ++ sStubs]) = false)
+    (htop : ∀ R ∈ roots, fs.isDir (R ++ dc) = true → ∀ c1, dc.head? = some c1 →
+      o.isBase R = true ∨ hasInit fs (R ++ [c1]) = true)
+    (hfind : findModule fs o.ns roots (dc ++ [x]) = some g) (hfile : fs.isFile g = true) :
+    ∃ R ∈ roots, crawlUp fs o g = .some (dc ++ [x]) R := by
+  have hlen : (dc ++ [x]).length - 1 = dc.length := by simp
+  simp only [findModule, getLast?_snoc, hlen] at hfind
+  rcases findLoop_spec fs _ _ _ hfind with ⟨c, hcm, hfound⟩ | ⟨hns, _, lvl, hmem, _⟩
+  · obtain ⟨bd, R⟩ := c
+    obtain ⟨hR, _, _, hbd⟩ := (mem_candidates fs).mp hcm
+    have hbd' : bd = R ++ dc := by simpa using hbd
+    subst hbd'
+    obtain ⟨_, hcr, _⟩ := found_claims fs o (hgood R hR) hdc hx hxi (hinner R hR).1 (hinner R hR).2 hfound
+    exact ⟨R, hR, hcr⟩
+  · simp only [List.nil_append] at hmem
+    obtain ⟨c, hcm, l', hs', hgl', _⟩ := (mem_missesOf fs).mp hmem
+    obtain ⟨bd, R⟩ := c
+    obtain ⟨hR, _, hisdir, hbd⟩ := (mem_candidates fs).mp hcm
+    have hbd' : bd = R ++ dc := by simpa using hbd
+    subst hbd'
+    have hisdir' : fs.isDir (R ++ dc) = true := by simpa using hisdir
+    simp only at hs' hgl'
+    have hgmem : g ∈ pkgFiles (R ++ dc) x ++ modFiles (R ++ dc) x := by
+      rcases scanDir_misses fs hs' g hgl' with h | h
+      · exact h.1
+      · -- the namespace directory is not a file
+        unfold nsDir at h
+        split at h
+        · next hc =>
+          simp only [List.mem_singleton] at h
+          subst h
+          simp only [Bool.and_eq_true, Bool.not_eq_true'] at hc
+          rw [hfile] at hc
+          exact absurd hc.2 (by simp)
+        · cases h
+    have hns' : o.ns = true := hns
+    have hinn := hinner R hR
+    simp only [noBaseBelow, Bool.and_eq_true, Bool.not_eq_true'] at hinn
+    have hdcr : ∀ c ∈ dc.reverse, isIdent c = true := fun c hc => hdc c (List.mem_reverse.mp hc)
+    have hchain := chainOK_of_ns fs o hns' (R := R) dc.reverse hdcr hinn.1.2
+      (by intro t ht
+          have : dc.head? = some t := by simpa [List.getLast?_reverse] using ht
+          exact htop R hR hisdir' t this)
+    have hbd := (chain_up fs o (hgood R hR) _ hchain).1
+    simp only [List.reverse_reverse] at hbd
+    exact ⟨R, hR, crawl_candidate fs o hbd hx hxi (by simpa using hinn.1.1) hinn.2 hgmem hfile⟩
+
 end Layout
